@@ -2,13 +2,17 @@ package checks
 
 import (
 	"bytes"
+	"crypto/rsa"
+	"crypto/x509"
 	"encoding/base64"
+	"encoding/pem"
 	"errors"
 	"fmt"
 	"io"
 	"net/http"
 	"net/url"
 	"regexp"
+	"runtime/debug"
 	"strings"
 
 	"github.com/beevik/etree"
@@ -125,3 +129,22 @@ func optStr(p *string) string {
 }
 
 func b64(b []byte) string { return base64.StdEncoding.EncodeToString(b) }
+
+func stackNow() string { return string(debug.Stack()) }
+
+// parseRSAPEM parses PKCS#1 or PKCS#8 RSA private keys.
+func parseRSAPEM(b []byte) *rsa.PrivateKey {
+	blk, _ := pem.Decode(b)
+	if blk == nil {
+		return nil
+	}
+	if k, err := x509.ParsePKCS1PrivateKey(blk.Bytes); err == nil {
+		return k
+	}
+	if k, err := x509.ParsePKCS8PrivateKey(blk.Bytes); err == nil {
+		if rk, ok := k.(*rsa.PrivateKey); ok {
+			return rk
+		}
+	}
+	return nil
+}
